@@ -1,6 +1,6 @@
 //! C19 driver: executes builder programs on the real install / download / size manifest builders.
 //!
-//! usage: drv_manifest [--programs <file|->] [--sweep MAXN] [--random N] --out <file|-> [--dump-programs <file>]
+//! usage: drv_manifest [--programs <file|->] [--sweep MAXN [--lite]] [--random N] --out <file|-> [--dump-programs <file>]
 //!
 //! Program: {"kind":"install"|"download"|"size","ver":v,"cs":bool,"fl":n,"base":p,"esb":w,"eks":k,"ops":[..]}
 //! Operations (file positions are 0-based, sizes are pairs [hi, lo] with value hi * 2^24 + lo):
@@ -400,10 +400,12 @@ fn build_op(q: &[Vec<String>]) -> Value {
 }
 
 /// deterministic sweep: every file count 0..=maxn on every container kind
-fn sweep(maxn: u64) -> Vec<Value> {
+fn sweep(maxn: u64, lite: bool) -> Vec<Value> {
     let mut progs = vec![];
     let q = subsets(&["A", "B", "C", "Z"]);
-    for k in kinds() {
+    // lite (quick tier): one configuration per container family and header layout that moves the tag section
+    let ks: Vec<Value> = kinds().into_iter().enumerate().filter(|(i, _)| !lite || [0, 1, 3, 5, 7].contains(i)).map(|(_, k)| k).collect();
+    for k in ks {
         let is_size = k["kind"] == "size";
         for n in 0..=maxn {
             let files: Vec<Value> = (0..n).map(|id| file_of(id, &k)).collect();
@@ -474,6 +476,23 @@ fn sweep(maxn: u64) -> Vec<Value> {
             ops.push(build_op(&qa));
         }
         progs.push(with_ops(&k, ops));
+    }
+    // (d) size manifests at the edge of the entry field: the largest size that fits, and one that does not
+    for (ver, w) in [(1u64, 1u64), (1, 2), (1, 3), (1, 4), (2, 4)] {
+        let k = json!({"kind": "size", "ver": ver, "esb": w, "eks": 9});
+        let top = (1u64 << (8 * w)) - 1;
+        let f = |s: u64| json!([s >> 24, s & 0xFF_FFFF, 0]);
+        for sizes in [vec![top, 0, 5], vec![5, top + 1, top], vec![top + 1], vec![top, top, 3 * (top + 1) + 1]] {
+            let files: Vec<Value> = sizes.iter().map(|s| f(*s)).collect();
+            progs.push(with_ops(&k, vec![json!({"op": "add_files", "files": files}), json!({"op": "add_tag", "t": "A", "ty": 1}),
+                                         json!({"op": "assoc", "i": sizes.len() - 1, "t": "A"}), build_op(&[])]));
+        }
+    }
+    // (e) version 2 size manifest whose total needs more than 40 bits although every entry fits 32
+    let k = json!({"kind": "size", "ver": 2, "eks": 2});
+    for cnt in [256u64, 257, 300] {
+        let files: Vec<Value> = (0..cnt).map(|_| json!([255, 0xFF_FFFF, 0])).collect();
+        progs.push(with_ops(&k, vec![json!({"op": "add_files", "files": files}), build_op(&[])]));
     }
     progs
 }
@@ -595,7 +614,7 @@ fn main() {
     }
     let mut generated = vec![];
     if let Some(maxn) = arg(&args, "--sweep") {
-        generated.extend(sweep(maxn.parse().expect("--sweep MAXN")));
+        generated.extend(sweep(maxn.parse().expect("--sweep MAXN"), has_flag(&args, "--lite")));
     }
     let nrand = arg_u64(&args, "--random", 0);
     if nrand > 0 {
